@@ -815,6 +815,41 @@ func run(c *core.Ctx) {
 			})
 		}
 	}
+	// (2b) deep targets: the key records which of its (up to 23) levels are literals in a 3-byte path field; depths
+	// around the byte boundaries of that field (8/9, 16/17) and at the maximum, exact and '#/' targets, with a '+'
+	// at each third position; requests: the same channel, one level changed at every position, one level more, one less
+	for _, lic := range licenses {
+		for _, depth := range []int{7, 8, 9, 15, 16, 17, 22, 23} {
+			for variant := 0; variant < 3; variant++ {
+				lv := make([]string, depth)
+				for i := range lv {
+					lv[i] = "a"
+					if variant > 0 && i%3 == variant-1 {
+						lv[i] = "+"
+					}
+				}
+				for _, suffix := range []string{"", "#/"} {
+					tg := strings.Join(lv, "/") + "/" + suffix
+					var reqs []string
+					plain := make([]string, depth)
+					for i := range plain {
+						plain[i] = "a"
+					}
+					reqs = append(reqs, strings.Join(plain, "/")+"/")
+					for i := 0; i < depth; i++ {
+						ch := append([]string(nil), plain...)
+						ch[i] = "b"
+						reqs = append(reqs, strings.Join(ch, "/")+"/")
+					}
+					reqs = append(reqs, strings.Join(plain, "/")+"/a/", strings.Join(plain[:depth-1], "/")+"/", strings.Join(plain, "/")+"/#/")
+					lic, tg := lic, tg
+					tasks = append(tasks, func(w *worker, st *stats) {
+						w.product(lic, tg, reqs, []uint8{0xFE}, []string{"none"}, false, st)
+					})
+				}
+			}
+		}
+	}
 	// (3) every mask x expiry x op on the representative pairs, every license
 	allMasks := make([]uint8, 256)
 	for i := range allMasks {
